@@ -17,7 +17,7 @@ from ..findings import Report
 def expected_cells(maxn):
     cells = strlen_cells = 0
     for n in range(maxn + 1):
-        per_content = sum(5 * 2 ** L + 13 * 3 ** L + 3 for L in range(n + 1)) + 3  # 13 = 8 + single-pass iterator, range, string x 3 modes
+        per_content = sum(5 * 2 ** L + 23 * 3 ** L + 3 for L in range(n + 1)) + 3  # 23 = 8 + single-pass iterator, range, string x 3 modes + 4 wider-element sources + 2 wider-element strings x 3 modes
         cells += 3 * (3 ** n) * per_content
         strlen_cells += 3 * 3 ** n
     return cells, strlen_cells
@@ -45,7 +45,7 @@ def main():
     exp_cells, exp_strlen = expected_cells(maxn)
     rep.rule("exhaustive: N in 0..%d x every initial content over {NUL,a,b}^N x every input of length 0..N over the "
              "same alphabet x eos modes none/single/all/default x overloads (const char*, string range, vector, list, "
-             "iterator pair, initializer_list, assign(n,v), fill, raw()) x element types char/uint8/int8; strlen and "
+             "iterator pair, initializer_list, assign(n,v), fill, raw(), single-pass iterators and ranges, sources of wider element types: vector<int>, vector<unsigned short>, deque<short>, const long*, u16string) x element types char/uint8/int8; strlen and "
              "strlen_r over every content through mutable and const views. A cell is one call compared with the "
              "reference (bytes incl. one guard element each side + returned iterator); distinct_nontrivial counts "
              "distinct (overload, N) pairs with at least one cell whose input is non-empty, per configuration "
